@@ -117,6 +117,14 @@ func aolListings(p *Prog, r *Report, m *aolModel, clause string) {
 		}
 		root := storeKeyRoot(st.Args[0])
 		r.Check(root == m.keeperTyp+".storeKey", kp("LIST", hn+"#store-root"), "listing iterates the aol store", site, root, "store root is "+root)
+		// the pager is driven by the caller's own page request: key, offset, limit, count_total and reverse are all the caller's
+		// (a rebuilt request that drops or changes one of them makes consecutive pages overlap or skip entries)
+		if len(pc.Call.Args) >= 2 {
+			pr := o.Of(pc.Call.Args[1])
+			f, okReq := requestField(pr)
+			r.Check(okReq && f == "Pagination", kp("ORIGIN", hn+"#page-request=req.Pagination"), "the pager is given the request's own Pagination, untouched", site,
+				"Paginate(store, req.Pagination, …)", "the page request handed to the pager is "+clip(pr.String(), 160)+", not req.Pagination itself: pages computed from a modified request (another limit, a dropped reverse flag or key) do not tile the listing")
+		}
 		pre := st.Args[1]
 		if !pre.IsCall("builtin:append") || len(pre.Args) != 2 || pre.Args[0].Op != "gval" {
 			r.Undecided(kp("LIST", hn+"#prefix-shape"), "listing prefix = FamilyPrefix ++ PartialEncode(key, n)", site, "prefix term: "+pre.String())
